@@ -1,12 +1,15 @@
-SPECIFICATION SimSpec
+SPECIFICATION Spec
 CONSTANTS
-  InitAccts <- MC_AcctsT
+  InitAccts <- MC_AcctsC
   MinLiq = "1"
-  Amts = {"1","2","3","5"}
-  MaxT = 12
+  Amts = {"1","2"}
+  MaxT = 8
   TStep = 3
-  MaxLen = 7
+  MaxLen = 3
   SplitMaxP = 0
   SplitMaxAmt = 0
   Defects = {"aggregate_lock_pairs_grants"}
+INVARIANT MInv_P
+PROPERTY MStep_Strict
+VIEW View
 CHECK_DEADLOCK FALSE
